@@ -6,6 +6,7 @@ removes and ages cache files; every reply must equal the reply a *separate*, nev
 concurrent server process gives for the same request on a copy of the tree."""
 from __future__ import annotations
 
+import itertools
 import os
 import random
 import shutil
@@ -96,8 +97,29 @@ def request_mix() -> typing.List[typing.Tuple[str, bytes, typing.Optional[bytes]
     return mix
 
 
-def fetch(sp: spdriver.ServerProcess, view: str, sel: bytes, q: typing.Optional[bytes]):
+# what different HTTP clients put into their requests: the name they reached the server by (an alias, an address,
+# another port, another spelling) and headers of their own; none of it is the server's configuration
+CLIENT_HOSTS = [b"verif.example", b"intranet-alias", b"127.0.0.1:7070", b"VERIF.EXAMPLE.", b"www.other.example:8080", b"[::1]:70",
+                b"evil.example"]
+CLIENT_HEADERS = [b"", b"X-Forwarded-Host: proxy.example\r\nX-Forwarded-Proto: https\r\n", b"Referer: http://elsewhere.example/x\r\n",
+                  b"Accept-Language: de\r\nConnection: close\r\n", b"Forwarded: for=192.0.2.1;host=fw.example\r\n"]
+_client_no = itertools.count()
+
+
+def as_some_client(req: bytes, view: str) -> bytes:
+    if reqs.VIEWS[view][0] not in ("http", "wap"):
+        return req
+    k = next(_client_no)
+    marker = b"Host: " + reqs.HOST.encode() + b"\r\n"
+    if marker not in req:
+        return req
+    return req.replace(marker, b"Host: " + CLIENT_HOSTS[k % len(CLIENT_HOSTS)] + b"\r\n" + CLIENT_HEADERS[(k // 3) % len(CLIENT_HEADERS)], 1)
+
+
+def fetch(sp: spdriver.ServerProcess, view: str, sel: bytes, q: typing.Optional[bytes], vary_client: bool = True):
     req, tls = reqs.render(view, sel, q)
+    if vary_client:
+        req = as_some_client(req, view)
     try:
         return sp.request(req, tls=tls, timeout=30), None
     except (socket.timeout, TimeoutError) as e:
@@ -510,7 +532,7 @@ def take_reference(chk: Check, sc: Scratch, src_root: str) -> typing.Optional[ty
             return None
         for pass_ in range(2):       # second pass: answers served from the caches must be the same
             for view, sel, q in request_mix():
-                data, err = fetch(sp, view, sel, q)
+                data, err = fetch(sp, view, sel, q, vary_client=bool(pass_))
                 if err:
                     chk.note_inconclusive("reference request failed: %s %r %s" % (view, sel, err))
                     return None
